@@ -331,6 +331,93 @@ template<class Rep, class Wide, int E>
     }
 }
 
+// ---- general scaled_integer<Rep, power<E, Radix>>: ++/-- == +-1, a op= b == S(a op b) ---------------
+// ++x must add exactly one, i.e. Radix^-E units of the rep (E <= 0, one representable); the oracle is
+// integer arithmetic on the rep. a op= b is compared with the library's own a op b converted back to S
+// (the equivalence the property states); states on which that reference expression traps are skipped.
+template<class Rep, int E, int Radix>
+[[gnu::noinline]] void prog_scaled()
+{
+    using S = scaled_integer<Rep, power<E, Radix>>;
+    std::string name = std::string("scaled_incdec_assign<") + vf::tn<Rep>() + "," + std::to_string(E) + "," + std::to_string(Radix) + ">";
+    bool full = vals::is_full<Rep>(8);
+    if (!vf::begin(name, full)) return;
+    static_assert(E <= 0);
+    Big one(1);
+    for (int i = 0; i < -E; ++i) one = one * Big(Radix);
+    bool const one_fits = one.template fits_type<Rep>();
+    auto const As = vals::space<Rep>(8, VF_TIER ? 1 : 3);
+    for (Rep a : As) {
+        if (!vf::my_row()) continue;
+        {
+            auto id = [&] { return vf::to_s(a); };
+            if (!(vf::replaying() && !vf::case_selected(id()))) {
+                vf::counted(true);
+                auto check_inc = [&](const char* op, int dir, bool post, auto&& f) {
+                    Big exact = Big(a) + (dir > 0 ? one : -one);
+                    // the promoted intermediate of Rep + Rep must hold the sum as well (built-in rule)
+                    if (!one_fits || !exact.template fits_type<Rep>()) {
+                        vf::skip_pre();
+                        return;
+                    }
+                    Big got, gret;
+                    vf::Outcome o = vf::run([&] {
+                        S w = cnl::_impl::from_rep<S>(a);
+                        S r = f(w);
+                        gret = cv::int_value(cnl::_impl::to_rep(r));
+                        got = cv::int_value(cnl::_impl::to_rep(w));
+                    });
+                    vf::validated();
+                    Big eret = post ? Big(a) : exact;
+                    if (!o.ok() || got != exact || gret != eret) {
+                        vf::outcome(o.ok() ? "wrong_incdec" : o.str());
+                        vf::violation(std::string(op) + "/" + (o.ok() ? (got != exact ? "value" : "returned") : o.str()), id(),
+                                      id() + " " + op + ": rep becomes " + (o.ok() ? got.str() + " returning " + gret.str() : o.str()) + ", adding one gives rep " + exact.str() + " returning " + eret.str());
+                    } else
+                        vf::outcome(std::string("ok_") + op);
+                };
+                check_inc("pre_inc", +1, false, [](S& x) { return ++x; });
+                check_inc("pre_dec", -1, false, [](S& x) { return --x; });
+                check_inc("post_inc", +1, true, [](S& x) { return x++; });
+                check_inc("post_dec", -1, true, [](S& x) { return x--; });
+            }
+        }
+        for (Rep b : As) {
+            auto id = [&] { return vf::to_s(a) + "," + vf::to_s(b); };
+            if (vf::replaying() && !vf::case_selected(id())) continue;
+            vf::counted(true);
+            auto check_assign = [&](const char* op, auto&& bin, auto&& asg) {
+                S x = cnl::_impl::from_rep<S>(a), y = cnl::_impl::from_rep<S>(b);
+                Big expect;
+                vf::Outcome r = vf::run([&] { expect = cv::int_value(cnl::_impl::to_rep(S(bin(x, y)))); });
+                if (!r.ok()) {
+                    vf::skip_pre();
+                    return;
+                }
+                Big got, gret;
+                vf::Outcome o = vf::run([&] {
+                    S w = x;
+                    S ref = asg(w, y);
+                    gret = cv::int_value(cnl::_impl::to_rep(ref));
+                    got = cv::int_value(cnl::_impl::to_rep(w));
+                });
+                vf::validated();
+                if (!o.ok() || got != expect || gret != expect) {
+                    vf::outcome(o.ok() ? "wrong_assign" : o.str());
+                    vf::violation(std::string(op) + "/" + (o.ok() ? "value" : o.str()), id(), id() + " " + op + ": rep becomes " + (o.ok() ? got.str() : o.str()) + ", S(a op b) has rep " + expect.str());
+                } else
+                    vf::outcome(std::string("ok_") + op);
+            };
+            check_assign("add_assign", [](S p, S q) { return p + q; }, [](S& p, S q) -> S { return p += q; });
+            check_assign("sub_assign", [](S p, S q) { return p - q; }, [](S& p, S q) -> S { return p -= q; });
+            check_assign("mul_assign", [](S p, S q) { return p * q; }, [](S& p, S q) -> S { return p *= q; });
+            if (b != 0) check_assign("div_assign", [](S p, S q) { return p / q; }, [](S& p, S q) -> S { return p /= q; });
+            else
+                vf::skip_pre();
+        }
+    }
+}
+
 template<class N>
 void nest_group_a()
 {
@@ -392,6 +479,22 @@ static void group()
     prog_doc<u8, u16, -3>();
     prog_doc<u32, u64, -16>();
     prog_doc<i32, i64, 5>();
+#elif VF_PART == 13
+    prog_scaled<i8, 0, 2>();
+    prog_scaled<i8, -3, 2>();
+    prog_scaled<u8, -7, 2>();
+    prog_scaled<i8, -1, 10>();
+    prog_scaled<u8, -2, 10>();
+    prog_scaled<i8, -2, 3>();
+    prog_scaled<u8, -1, 16>();
+    prog_scaled<i16, -8, 2>();
+    prog_scaled<i16, -2, 10>();
+    prog_scaled<i16, -4, 8>();
+    prog_scaled<i32, -16, 2>();
+    prog_scaled<i32, -3, 10>();
+    prog_scaled<u32, -5, 3>();
+    prog_scaled<i64, -20, 2>();
+    prog_scaled<i64, -6, 10>();
 #endif
 }
 VF_GROUP(group);
